@@ -313,3 +313,57 @@ def identities_unique(recs):
             seen.add(k)
             last = k
     return True
+
+
+_RES_CACHE = {}
+
+
+def whole_residue(resn, atomname):
+    """A complete residue of the given type from the repository proteins (copy)."""
+    key = (resn, atomname)
+    if key not in _RES_CACHE:
+        for name in PROTEINS:
+            for res in residue_list(full_protein(name)):
+                if (res.key[4] == resn and res.key[0] == "ATOM  " and all(a.alt == " " for a in res.atoms)
+                        and any(a.aname() == atomname for a in res.atoms) and len(res.atoms) >= 6):
+                    _RES_CACHE[key] = res.atoms
+                    break
+            if key in _RES_CACHE:
+                break
+    return [a.copy() for a in _RES_CACHE[key]]
+
+
+def residue_cluster(rng, k=None, chain="K"):
+    """k whole residues of one ionizable type, rigidly placed so that their titrating atoms are
+    within a few Angstrom of each other and no two atoms of different residues are closer than
+    2.7 A (no inter-residue bonds). Such clusters often do not converge in the iterative solver."""
+    import numpy as np
+    from . import fragments
+    resn, an = rng.choice((("LYS", "NZ"), ("ASP", "CG"), ("GLU", "CD"), ("HIS", "NE2"), ("TYR", "OH"), ("ARG", "CZ")))
+    k = k or rng.choice((3, 4, 5))
+    spread = rng.uniform(1.5, 3.0)
+    base = whole_residue(resn, an)
+    out = []
+    placed = 0
+    for i in range(k):
+        for _ in range(100):
+            rot = fragments.random_rotation(rng)
+            key = [a for a in base if a.aname() == an][0]
+            tgt = [rng.uniform(-spread, spread) * 1000 for _ in range(3)]
+            new = []
+            for a in base:
+                p = (a.x - key.x, a.y - key.y, a.z - key.z)
+                q = [rot[r][0] * p[0] + rot[r][1] * p[1] + rot[r][2] * p[2] for r in range(3)]
+                b = a.copy()
+                b.x, b.y, b.z = int(round(q[0] + tgt[0])), int(round(q[1] + tgt[1])), int(round(q[2] + tgt[2]))
+                b.chain, b.resnum, b.icode = chain, 10 + 3 * i, " "
+                new.append(b)
+            if out:
+                P = np.array([(a.x, a.y, a.z) for a in out], float)
+                F = np.array([(a.x, a.y, a.z) for a in new], float)
+                if np.sqrt(((F[:, None, :] - P[None, :, :]) ** 2).sum(2)).min() < 2700:
+                    continue
+            out += new
+            placed += 1
+            break
+    return out, {"cluster": resn, "residues": placed}
